@@ -190,13 +190,25 @@ fn main() {
         "C13" => {
             if args.replay.is_none() {
                 inputs.extend(c13::generate(&mut rng, args.n, args.thorough));
+                // the state-machine clauses (progress delivery, no running ahead of the consumer): scripted runs with installs
+                let mut k = smgen::default_knobs();
+                k.update_pct = 85; k.reboot_pct = 50;
+                for _ in 0..(args.n / 4).max(100) { inputs.push(smgen::gen_sm(&mut rng, &k)); }
             }
             for i in &inputs {
-                w.push(c13::run_input(i));
+                if i["kind"] == "sm" {
+                    let mut c = smgen::run_input(i);
+                    c.gallina = format!("K13Sm ({})", c.gallina);
+                    w.push(c);
+                } else {
+                    let mut c = c13::run_input(i);
+                    c.gallina = format!("K13G ({})", c.gallina);
+                    w.push(c);
+                }
             }
-            header = c13::HEADER;
-            ctype = c13::CTYPE;
-            runner = c13::RUNNER;
+            header = "Require Import Verif.Run.EvalC13any.";
+            ctype = "c13any";
+            runner = "run_c13any";
         }
         "C19" => {
             if args.replay.is_none() {
